@@ -123,6 +123,9 @@ def collision_programs(ctx):
             continue
         pa, pb = rng.sample(sorted(by_part), 2)
         ha, hb = rng.choice(by_part[pa]), rng.choice(by_part[pb])
+        if i % 3 == 2:
+            # a generic contract: the check must not wait for somebody to instantiate the messages with concrete types
+            p["generics"] = [{"name": "ParamT", "concrete": "u32"}]
         if i % 2 == 1:
             # the user's own entry point for that kind does not lift the rule: the generated wrapper is still there
             p["overrides"] = [{"kind": kind, "fn": f"ov_{kind}", "msg": "svmon::OvMsg"}]
@@ -148,6 +151,9 @@ def collision_programs(ctx):
         if any(T.wire_name(h["name"]) == T.wire_name(ha["name"]) for h in handlers(c, part=pb)):
             continue
         hb2["name"] = ha["name"]
+        if i % 4 == 0:
+            # a forwarded attribute that re-cases the *fields* of the variant leaves its name where it was
+            hb2["sv_attrs"] = list(hb2.get("sv_attrs", [])) + ["serde(rename_all = \"snake_case\")"]
         mods[f"cl{i:03d}"] = render.R(c).source(with_glue=False)
         meta[f"cl{i:03d}"] = {"expect": "reject", "kind": kind, "name": ha["name"], "parts": [pa, pb], "overridden": bool(c.get("overrides"))}
         n_if = len(c["parts"]) - 1
